@@ -37,6 +37,9 @@ import rstok  # noqa: E402
 
 
 VACUITY = False
+# unit ident -> level: 1 = drop in-body hints (`at` anchors), 2 = also make the unit external_body (contract kept for
+# callers), 3 = leave the function unannotated. Used to confine a unit whose spliced text no longer compiles.
+DEGRADE = {}
 
 
 class LostAnchor(Exception):
@@ -251,6 +254,87 @@ def annotate_file(src, fc, relfile, uid_start=0):
     uid = uid_start
     impl_wraps = {}
     lost_units = set(id(u) for u, _ in lost)
+
+    def place_unit(u, it, level, uid_str):
+        """Insertions for unit u at degradation `level` (0 full, 1 without in-body hints, 2 external_body with contract).
+        Raises LostAnchor."""
+        my = []
+
+        def madd(off, text):
+            my.append((off, text))
+
+        nowrap = it.parent is not None and it.parent.kind in ('impl', 'trait')
+        u_assumed = u.assumed or level >= 2
+        head = ('/*VU-BEGIN %s*/\n' if nowrap else 'verus! { /*VU-BEGIN %s*/\n') % uid_str
+        if u.attr:
+            head += u.attr + '\n'
+        if u_assumed:
+            head += '#[verifier::external_body]\n'
+        madd(it.start, head)
+        madd(it.end, ('\n/*VU-END %s*/\n' if nowrap else '\n/*VU-END %s*/ } // verus!\n') % uid_str)
+        if u.ret:
+            if it.arrow is None:
+                raise LostAnchor('%s: fn %s has no return type to name' % (u.lineno, u.path))
+            q = it.arrow + 1
+            last = q
+            while q < it.body_open:
+                t = toks[q]
+                if t.k == 'id' and t.s == 'where':
+                    break
+                if t.k == 'p' and t.s in ('(', '['):
+                    q = rstok.match_close(toks, q)
+                last = q
+                q += 1
+            madd(toks[it.arrow].b, ' (%s: ' % u.ret)
+            madd(toks[last].b, ')')
+        if u.sig:
+            madd(toks[it.body_open].a, '\n' + u.sig + '\n')
+        if VACUITY and not u_assumed:
+            madd(toks[it.body_open].b, '\nproof { assert(false); } // vacuity probe\n')
+        loops = rstok.body_loops(toks, it.body_open, it.body_close)
+        blocks = rstok.body_blocks(toks, it.body_open, it.body_close)
+        for k, text in (u.loops.items() if level < 2 else []):
+            if k < 1 or k > len(loops):
+                raise LostAnchor('%s: fn %s has %d loops, loop %d wanted' % (u.lineno, u.path, len(loops), k))
+            madd(toks[loops[k - 1][1]].a, '\n' + text + '\n')
+        for where, pos, text, lineno in (u.ats if level < 1 else []):
+            if where == 'body':
+                o, c = it.body_open, it.body_close
+            elif where.startswith('loop'):
+                k = int(where.split()[1])
+                if k < 1 or k > len(loops):
+                    raise LostAnchor('%s: loop %d not found in %s' % (lineno, k, u.path))
+                o, c = loops[k - 1][1], loops[k - 1][2]
+            else:
+                k = int(where.split()[1])
+                if k < 0 or k >= len(blocks):
+                    raise LostAnchor('%s: block %d not found in %s' % (lineno, k, u.path))
+                o, c = blocks[k].open, blocks[k].close
+            if pos == 'entry':
+                madd(toks[o].b, '\n' + text + '\n')
+                continue
+            st = rstok.statements(toks, o, c)
+            if pos == 'end':
+                if st and not st[-1][2]:
+                    madd(toks[st[-1][0]].a, text + '\n')  # before the tail expression
+                else:
+                    madd(toks[c].a, text + '\n')
+                continue
+            if pos == 'before last':
+                if not st:
+                    raise LostAnchor('%s: empty block in %s' % (lineno, u.path))
+                madd(toks[st[-1][0]].a, text + '\n')
+                continue
+            kind, n = pos.split()
+            n = int(n)
+            if n < 1 or n > len(st):
+                raise LostAnchor('%s: statement %d not found (%d statements) in %s' % (lineno, n, len(st), u.path))
+            if kind == 'before':
+                madd(toks[st[n - 1][0]].a, text + '\n')
+            else:
+                madd(toks[st[n - 1][1]].b, '\n' + text + '\n')
+        return my
+
     for u in fc['units']:
         if id(u) in lost_units:
             continue
@@ -258,94 +342,40 @@ def annotate_file(src, fc, relfile, uid_start=0):
             it = find_one(items, 'fn', u.path, u.lineno)
             if it.body_open is None:
                 raise LostAnchor('%s: fn %s has no body' % (u.lineno, u.path))
-            uid += 1
-            u.uid = 'U%04d' % uid
-            my = []
-            if it.parent is not None and it.parent.kind in ('impl', 'trait'):
-                # verus!{} at impl-item level breaks associated functions without a receiver: wrap the whole
-                # impl once and mark the sibling functions that are not under contract #[verifier::external]
-                u.nowrap = True
-                impl_wraps.setdefault(id(it.parent), (it.parent, set()))[1].add(id(it))
-
-            def madd(off, text, my=my):
-                my.append((off, text))
-
-            nowrap = getattr(u, 'nowrap', False)
-            head = ('/*VU-BEGIN %s*/\n' if nowrap else 'verus! { /*VU-BEGIN %s*/\n') % u.uid
-            if u.attr:
-                head += u.attr + '\n'
-            if u.assumed:
-                head += '#[verifier::external_body]\n'
-            madd(it.start, head)
-            madd(it.end, ('\n/*VU-END %s*/\n' if nowrap else '\n/*VU-END %s*/ } // verus!\n') % u.uid)
-            if u.ret:
-                if it.arrow is None:
-                    raise LostAnchor('%s: fn %s has no return type to name' % (u.lineno, u.path))
-                # return type spans arrow+1 .. before 'where' or body
-                q = it.arrow + 1
-                last = q
-                while q < it.body_open:
-                    t = toks[q]
-                    if t.k == 'id' and t.s == 'where':
-                        break
-                    if t.k == 'p' and t.s in ('(', '['):
-                        q = rstok.match_close(toks, q)
-                    last = q
-                    q += 1
-                madd(toks[it.arrow].b, ' (%s: ' % u.ret)
-                madd(toks[last].b, ')')
-            if u.sig:
-                madd(toks[it.body_open].a, '\n' + u.sig + '\n')
-            if VACUITY and not u.assumed:
-                madd(toks[it.body_open].b, '\nproof { assert(false); } // vacuity probe\n')
-            loops = rstok.body_loops(toks, it.body_open, it.body_close)
-            blocks = rstok.body_blocks(toks, it.body_open, it.body_close)
-            for k, text in u.loops.items():
-                if k < 1 or k > len(loops):
-                    raise LostAnchor('%s: fn %s has %d loops, loop %d wanted' % (u.lineno, u.path, len(loops), k))
-                madd(toks[loops[k - 1][1]].a, '\n' + text + '\n')
-            for where, pos, text, lineno in u.ats:
-                if where == 'body':
-                    o, c = it.body_open, it.body_close
-                elif where.startswith('loop'):
-                    k = int(where.split()[1])
-                    if k < 1 or k > len(loops):
-                        raise LostAnchor('%s: loop %d not found in %s' % (lineno, k, u.path))
-                    o, c = loops[k - 1][1], loops[k - 1][2]
-                else:
-                    k = int(where.split()[1])
-                    if k < 0 or k >= len(blocks):
-                        raise LostAnchor('%s: block %d not found in %s' % (lineno, k, u.path))
-                    o, c = blocks[k].open, blocks[k].close
-                if pos == 'entry':
-                    madd(toks[o].b, '\n' + text + '\n')
-                    continue
-                st = rstok.statements(toks, o, c)
-                if pos == 'end':
-                    if st and not st[-1][2]:
-                        madd(toks[st[-1][0]].a, text + '\n')  # before the tail expression
-                    else:
-                        madd(toks[c].a, text + '\n')
-                    continue
-                if pos == 'before last':
-                    if not st:
-                        raise LostAnchor('%s: empty block in %s' % (lineno, u.path))
-                    madd(toks[st[-1][0]].a, text + '\n')
-                    continue
-                kind, n = pos.split()
-                n = int(n)
-                if n < 1 or n > len(st):
-                    raise LostAnchor('%s: statement %d not found (%d statements) in %s' % (lineno, n, len(st), u.path))
-                if kind == 'before':
-                    madd(toks[st[n - 1][0]].a, text + '\n')
-                else:
-                    madd(toks[st[n - 1][1]].b, '\n' + text + '\n')
-            for off, text in my:
-                add(off, text)
-            u.n_splices = len(my)
         except LostAnchor as e:
             lost.append((u, str(e)))
             u.uid = None
+            continue
+        uid += 1
+        uid_str = 'U%04d' % uid
+        level = DEGRADE.get(u.ident(), 0)
+        my = None
+        reason = None
+        while level <= 2:
+            try:
+                my = place_unit(u, it, level, uid_str)
+                break
+            except LostAnchor as e:
+                # an anchor of this unit no longer resolves: keep the unit (callers still see its contract) but with
+                # less of the proof text; the unit is then reported undecided, never discharged
+                reason = str(e)
+                level += 1
+        if my is None:
+            uid -= 1
+            u.uid = None
+            lost.append((u, reason or 'degraded: unit left unannotated after its spliced text failed to compile'))
+            continue
+        u.uid = uid_str
+        u.degraded = level
+        u.degrade_reason = reason
+        if it.parent is not None and it.parent.kind in ('impl', 'trait'):
+            # verus!{} at impl-item level breaks associated functions without a receiver: wrap the whole
+            # impl once and mark the sibling functions that are not under contract #[verifier::external]
+            u.nowrap = True
+            impl_wraps.setdefault(id(it.parent), (it.parent, set()))[1].add(id(it))
+        for off, text in my:
+            add(off, text)
+        u.n_splices = len(my)
     wrapn = 0
     wraprecs = []
     for parent, members in impl_wraps.values():
@@ -499,7 +529,8 @@ def annotate_tree(repo_src, contracts_dir, spec_dir, out_src, only=None, specs=N
             r = ranges.get(u.uid)
             index['units'].append({
                 'uid': u.uid, 'file': rel, 'path': u.path, 'props': u.props, 'assumed': u.assumed,
-                'bounded': getattr(u, 'bounded', False),
+                'bounded': getattr(u, 'bounded', False), 'degraded': getattr(u, 'degraded', 0),
+                'degrade_reason': getattr(u, 'degrade_reason', None), 'ident': u.ident(),
                 'orig_sha256': u.orig_sha, 'orig_lines': u.orig_lines, 'splices': u.n_splices,
                 'rewrites': u.rewrites_applied, 'range': r,
                 'clauses': count_clauses(u),
